@@ -164,6 +164,58 @@ func run(c nlhist.Case) (sig string, err error, st stats) {
 	return "", nil, st
 }
 
+// TestC12_SharingDense: the cached file repeats a chunk that an uploaded (or pinned) file also
+// contains, a shape the free generator only meets now and then.
+func TestC12_SharingDense(t *testing.T) {
+	r := evid.Get(id)
+	evid.Finish(t, r)
+	evid.Checks(60)
+	rapid.Check(t, func(t *rapid.T) {
+		x := rapid.IntRange(0, 2).Draw(t, "x")
+		y := (x + 1 + rapid.IntRange(0, 1).Draw(t, "y")) % 3
+		cached := nodelite.FileSpec{Tags: []int{x, x}, Tail: rapid.SampledFrom([]int{0, 9}).Draw(t, "tail0")}
+		if rapid.Bool().Draw(t, "third") {
+			cached.Tags = append(cached.Tags, y)
+		}
+		local := nodelite.FileSpec{Tags: []int{x}, Tail: rapid.SampledFrom([]int{0, 9, 4096}).Draw(t, "tail1"), Salt: 1}
+		if rapid.Bool().Draw(t, "second") {
+			local.Tags = append(local.Tags, y)
+		}
+		c := nlhist.Case{Files: []nodelite.FileSpec{cached, local}}
+		opGen := rapid.Custom(func(t *rapid.T) nlhist.Op {
+			k := rapid.SampledFrom([]string{"fetchA", "fetchA", "uploadB", "uploadB", "pinB", "unpinB", "readA", "gc", "restart", "deleteB"}).Draw(t, "k")
+			switch k {
+			case "fetchA":
+				return nlhist.Op{K: "fetch", F: 0, Arg: rapid.SampledFrom([]int{0, 0, 1, 3}).Draw(t, "mask")}
+			case "uploadB":
+				return nlhist.Op{K: "upload", F: 1, Flag: rapid.Bool().Draw(t, "pin")}
+			case "pinB":
+				return nlhist.Op{K: "pin", F: 1, Flag: rapid.Bool().Draw(t, "http")}
+			case "unpinB":
+				return nlhist.Op{K: "unpin", F: 1, Flag: rapid.Bool().Draw(t, "http")}
+			case "readA":
+				return nlhist.Op{K: "read", F: 0}
+			case "restart":
+				return nlhist.Op{K: "restart"}
+			case "deleteB":
+				return nlhist.Op{K: "delete", F: 1}
+			}
+			return nlhist.Op{K: "gc", Arg: rapid.SampledFrom([]int{1, 2, 4}).Draw(t, "cap")}
+		})
+		c.Ops = append(rapid.SliceOfN(opGen, 2, 10).Draw(t, "ops"), nlhist.Op{K: "gc", Arg: 1})
+		sig, err, st := run(c)
+		if err != nil {
+			t.Fatalf("%s", evid.Violation(id, sig, fmt.Sprintf("%v\ncase=%+v", err, c)))
+		}
+		cls := []string{"sharing-dense"}
+		for k := range st.classes {
+			cls = append(cls, k)
+		}
+		r.Case(evid.Hash64("dense", c), st.evicting && st.sharedProtected, cls...)
+		r.Sample(c)
+	})
+}
+
 func TestC12_GCKeepsPinnedAndUploaded(t *testing.T) {
 	r := evid.Get(id)
 	evid.Finish(t, r)
